@@ -242,6 +242,35 @@ claim(
     "DESIGN.md §2 C16",
 )
 
+claim(
+    "C12",
+    "path enumeration of visit_X methods against generic_visit's replacement rule (sibling agreement); "
+    "guard-fact dominance of the writes; write-path roots and open modes over the reference graph; CLI "
+    "choices vs table",
+    "Decides necessary parts: every specialised visit_X of the replacing NodeTransformer applies the "
+    "replacement rule or delegates to generic_visit on every non-replacing path (else targets of that node "
+    "type can never be synchronised); the truncating write of an existing target is dominated by `not "
+    "cmp_ast(...)` and `rewrite_at_query.replaced` (second run = no write) and creation writes by the file / "
+    "node being absent; every write reachable from ground_truth goes to the loop's target filename through "
+    "cdd.shared.emit.file.file, the truth file is opened read-only; --truth choices are table keys.",
+    "NOT decided: equivalence of the re-parsed interface with the truth; idempotence of black (value level).",
+    "DESIGN.md §2 C12",
+)
+
+claim(
+    "C13",
+    "write inventory with exact-parameter path and open modes; guard-fact dominance; replaced-flag typestate "
+    "at every replacement site; index-space classification of every .defaults subscript (belief contradiction)",
+    "Decides necessary parts: sync_properties performs exactly one write, to exactly output_filename, and "
+    "opens the input read-only; the eval of the input module is dominated by input_eval; every replacement "
+    "site of RewriteAtQuery is dominated by `not self.replaced` and raises the flag (exactly one location is "
+    "replaced); every subscript of `.defaults` in the package uses a default index (argument index corrected "
+    "by len(defaults) - len(args)), the belief encoded by function.parse's left padding — parameter/default "
+    "alignment is preserved.",
+    "NOT decided: node-by-node equality of the rest of the output AST (value level).",
+    "DESIGN.md §2 C13",
+)
+
 
 def main():
     """write MANIFEST.json"""
